@@ -118,7 +118,7 @@ def check_log(sock, stream_frames, label, vi):
                                 label, end, prev))
 
 
-PRELUDES = ["fresh", "connected", "reused-midmessage", "after-send_close", "mid-own-message", "created"]
+PRELUDES = ["fresh", "connected", "reused-midmessage", "after-send_close", "mid-own-message", "created", "reused-eof-midframe", "reused-eof-midmessage"]
 
 
 class IncHarness:
